@@ -4,14 +4,15 @@ import itertools
 import random
 
 
-def build():
+def build(start='two'):
+    """start: how many datasets the collection holds at the beginning ('two': d1, d2; 'one': d1; 'empty')"""
     import numpy as np
     from glue.core import Data, DataCollection
     from glue.core.session import Session
     d1 = Data(x=[1., 2., 3., 4.], y=[4., 3., 2., 1.], label='d1')
     d2 = Data(u=[1., 5., 9.], label='d2')
     d3 = Data(x=[0., 10.], label='d3')
-    dc = DataCollection([d1, d2])
+    dc = DataCollection({'two': [d1, d2], 'one': [d1], 'empty': []}[start])
     s = Session(data_collection=dc)
     return s, dict(d1=d1, d2=d2, d3=d3)
 
@@ -56,9 +57,9 @@ def make_command(tok, session, D):
     raise ValueError(tok)
 
 
-def run_sequence(seq):
+def run_sequence(seq, start='two'):
     """returns None or (step index, what, detail)"""
-    session, D = build()
+    session, D = build(start)
     stack = session.command_stack
     hist, redo = [], []
     for i, tok in enumerate(seq):
@@ -132,17 +133,19 @@ def run(tier, seed, R):
     R.rule = ("real CommandStack/Session: ALL sequences of length <= %d over {do(c) for c in %d generated commands (AddData, RemoveData, "
               "ApplySubsetState x {default,new,replace,and,or,xor,andnot} x 3 states, ApplyROI), undo, redo}; after every undo the snapshot "
               "(datasets, subsets+masks+styles, groups, edit subset) must equal the one before the command, after every redo the one after it; "
-              "plus seeded random sequences of length 6-10, and MAX_UNDO+3 commands. non-trivial = distinct sequence with >=1 undo after >=1 do" % (N, len(CMDS)))
+              "the same with collections that start with one dataset or none (k <= 3 (4 thorough) commands over 8, then undo^k redo^k undo^k); "
+              "plus seeded random sequences of length 6-10 from all three starts, and MAX_UNDO+3 commands. non-trivial = distinct sequence with >=1 undo after >=1 do" % (N, len(CMDS)))
     R.exhaustive = True
 
-    def one(seq):
-        r = run_sequence(seq)
+    def one(seq, start='two'):
+        r = run_sequence(seq, start)
         nt = any(t[0] == 'undo' for t in seq) and seq[0][0] not in ('undo', 'redo')
-        R.count(tuple(seq) if nt else None, 'command-sequences')
+        R.count((start,) + tuple(seq) if nt else None, 'command-sequences')
         if r is not None:
             i, what, detail = r
-            R.fail("command|%s|%s" % (what, kind_of(seq, i)), "sequence %r: at step %d %s" % (list(seq[:i + 1]), i, detail),
-                   "from bounded.c13_command import run_sequence\nr = run_sequence(%r)\nprint(r)\nsys.exit(1 if r else 0)\n" % (list(seq[:i + 1]),))
+            R.fail("command|%s|%s%s" % (what, kind_of(seq, i), '' if start == 'two' else '|start-' + start),
+                   "collection initially holding %s dataset(s), sequence %r: at step %d %s" % ({'two': 2, 'one': 1, 'empty': 0}[start], list(seq[:i + 1]), i, detail),
+                   "from bounded.c13_command import run_sequence\nr = run_sequence(%r, %r)\nprint(r)\nsys.exit(1 if r else 0)\n" % (list(seq[:i + 1]), start))
     for n in range(1, N + 1):
         for seq in itertools.product(ALPHABET, repeat=n):
             if seq[0][0] in ('undo', 'redo') and n > 1:
@@ -156,9 +159,19 @@ def run(tier, seed, R):
     for k in range(1, K + 1):
         for cmds in itertools.product(CMDS, repeat=k):
             one(tuple(cmds) + (('undo',),) * k + (('redo',),) * k + (('undo',),) * k + (('redo',),))
+    # collections that start with one dataset or none (groups without subsets, datasets that come and go): k commands, then all
+    # prefixes of undo^k redo^k undo^k, and k commands followed by j <= k undos
+    SMALL = [('add', 'd1'), ('add', 'd3'), ('remove', 'd1'), ('sel', 'x>2', 'default'), ('sel', 'y<3', 'replace'), ('sel', 'roi', 'new'), ('sel', 'y<3', 'or'), ('roi',)]
+    K2 = 3 if tier == 'quick' else 4
+    for start in ('one', 'empty'):
+        for k in range(1, K2 + 1):
+            for cmds in itertools.product(SMALL, repeat=k):
+                if start == 'one' and cmds[0] == ('add', 'd1'):
+                    continue
+                one(tuple(cmds) + (('undo',),) * k + (('redo',),) * k + (('undo',),) * k, start)
     for _ in range(300 if tier == 'quick' else 5000):
         n = rng.randint(6, 10)
-        one(tuple(rng.choice(ALPHABET) for _ in range(n)))
+        one(tuple(rng.choice(ALPHABET + [('add', 'd1')]) for _ in range(n)), rng.choice(('two', 'one', 'empty')))
     # the documented bound on the undo history
     from glue.core import command as C
     seq = [('sel', 'x>2', 'replace'), ('sel', 'y<3', 'or')] * ((C.MAX_UNDO + 4) // 2) + [('undo',)] * (C.MAX_UNDO + 2) + [('redo',)] * 3
